@@ -1,12 +1,10 @@
 use std::ffi::OsString;
 use std::fs;
 use std::fs::OpenOptions;
+use std::io::ErrorKind;
 use std::io::Read;
 use std::io::Write;
 use std::path::Path;
-
-use glob::glob;
-use pathdiff::diff_paths;
 
 pub fn read_source(source_path: &Path) -> Result<String, String> {
     let mut source = String::new();
@@ -50,24 +48,42 @@ pub fn relative_files(in_path: &Path) -> Result<Vec<OsString>, String> {
         return Ok(vec![in_file_name.to_os_string()]);
     }
 
-    // The directory itself is not a pattern: escape glob metacharacters in it.
-    let escaped_in_path = glob::Pattern::escape(in_path.to_string_lossy().as_ref());
-    let pattern_path = Path::new(&escaped_in_path).join("**").join("*.mamba");
-    let pattern = pattern_path.as_os_str().to_string_lossy();
-    let glob =
-        glob(pattern.as_ref()).map_err(|e| format!("Unable to recursively find files: {e}"))?;
-
     let mut relative_paths = vec![];
-    for absolute_result in glob {
-        let absolute_path = absolute_result.map_err(|e| (e.to_string()))?;
-        if absolute_path.is_dir() {
-            // A directory whose name ends in `.mamba` is not a source file.
-            continue;
+    collect_sources(in_path, Path::new(""), &mut relative_paths)?;
+    Ok(relative_paths)
+}
+
+/// Collect the `*.mamba` files in and below a directory, in alphabetical order, as paths
+/// relative to the directory the walk started in.
+///
+/// Symbolic links are followed. Nothing is skipped silently: a directory which cannot be
+/// listed, or an entry which cannot be inspected, is an error.
+fn collect_sources(
+    dir: &Path,
+    relative: &Path,
+    sources: &mut Vec<OsString>,
+) -> Result<(), String> {
+    let mut entries = fs::read_dir(dir)
+        .and_then(|entries| entries.collect::<Result<Vec<_>, _>>())
+        .map_err(|e| format!("{}: {}", e, dir.display()))?;
+    entries.sort_by_key(|entry| entry.file_name());
+
+    for entry in entries {
+        let (path, relative) = (entry.path(), relative.join(entry.file_name()));
+        let is_source = entry.file_name().to_string_lossy().ends_with(".mamba");
+        let metadata = match fs::metadata(&path) {
+            Ok(metadata) => metadata,
+            // A dangling link which is not a source is of no concern to us.
+            Err(e) if e.kind() == ErrorKind::NotFound && !is_source => continue,
+            Err(e) => return Err(format!("{}: {}", e, path.display())),
+        };
+
+        if metadata.is_dir() {
+            collect_sources(&path, &relative, sources)?;
+        } else if is_source {
+            sources.push(relative.into_os_string());
         }
-        let relative_path = diff_paths(absolute_path.as_path(), in_path)
-            .ok_or_else(|| String::from("Unable to create relative path"))?;
-        relative_paths.push(relative_path.into_os_string());
     }
 
-    Ok(relative_paths)
+    Ok(())
 }
